@@ -7,7 +7,7 @@ Written over `List Char` with a structurally recursive `split('_')` so that fact
 identifiers to `[a-zA-Z][a-zA-Z0-9_]*`.
 (A second copy of `convert` lives with property C02; this one is owned by C14/C15/C10.)
 -/
-namespace Pydjinni.Gen
+namespace Pydjinni.GenC
 
 inductive Case | none | camel | pascal | snake | kebab | train
 deriving DecidableEq, Repr, Inhabited
@@ -82,4 +82,4 @@ def title (s : String) : String := String.ofList (titleL s.toList)
 def Style.pascal : Style := { case := .pascal }
 def Style.snake : Style := { case := .snake }
 
-end Pydjinni.Gen
+end Pydjinni.GenC
